@@ -16,6 +16,7 @@ import (
 	"sort"
 	"strings"
 	"sync"
+	"syscall"
 	"time"
 
 	"github.com/CorentinB/warc"
@@ -42,6 +43,9 @@ type Resp struct {
 	Header map[string]string `json:"header,omitempty"`
 	Body   string            `json:"body,omitempty"`
 	Err    bool              `json:"err,omitempty"` // transport error instead of a response
+	// ErrKind: which transport error: "" = connection refused; "eof" / "reset" / "epipe" = the server accepts the
+	// connection and hangs up before the first byte of an answer; "timeout" = nothing comes back in time
+	ErrKind string `json:"err_kind,omitempty"`
 	// CutAt > 0: the connection breaks after that many body bytes (the read returns an error)
 	CutAt int `json:"cut_at,omitempty"`
 	// CutErr: how it breaks: "" = connection reset; "timeout" = the server goes silent and the read deadline /
@@ -108,6 +112,7 @@ type Options struct {
 	MaxHops              int
 	DisableAssets        bool
 	RateLimit            bool
+	RateCapacity         int // tokens of a host's bucket with RateLimit (0 = 2: the second request of a burst waits)
 	ExcludeHosts         []string
 	DiscardStatus        []int
 	IncludeHosts         []string // --include-host
@@ -119,6 +124,7 @@ type Options struct {
 	AsyncWARC            bool     // --async-warc-write: no feedback channel
 	SlowWrites           bool     // every WARC write may (as an environment deviation, cost F) take 5 virtual minutes
 	DomainsCrawlPatterns []string // --domains-crawl
+	HTTPTimeout          int      // --http-timeout in seconds (0 = the default: -1, no time-out)
 	SlowSourceMs         int      // the source takes that long (virtual time) over every finished seed it is handed
 }
 
@@ -191,7 +197,7 @@ func New(opt Options, site Site) *World {
 		MaxRetry: opt.MaxRetry, MaxRedirect: opt.MaxRedirect, MaxHops: opt.MaxHops,
 		DisableAssetsCapture: opt.DisableAssets,
 		DisableRateLimit:     !opt.RateLimit,
-		RateLimitCapacity:    2, RateLimitRefillRate: 1, RateLimitCleanupFrequency: 5 * time.Minute,
+		RateLimitCapacity:    float64(map[bool]int{true: opt.RateCapacity, false: 2}[opt.RateCapacity > 0]), RateLimitRefillRate: 1, RateLimitCleanupFrequency: 5 * time.Minute,
 		UseSeencheck: !opt.NoSeencheck, DisableSeencheck: opt.NoSeencheck, UserAgent: "verif", UseHQ: !opt.LocalSeencheck && !opt.NoSeencheck,
 		WARCWriteAsync:    opt.AsyncWARC,
 		ExcludeHosts:      append([]string{"archive.org", "archive-it.org"}, opt.ExcludeHosts...),
@@ -200,6 +206,7 @@ func New(opt Options, site Site) *World {
 		DomainsCrawl:     opt.DomainsCrawlPatterns,
 		WARCTempDir:      w.seenDir + "/temp",
 		HTTPReadDeadline: 60, // the CLI default (seconds)
+		HTTPTimeout:      map[bool]int{true: opt.HTTPTimeout, false: -1}[opt.HTTPTimeout > 0],
 	}
 	if opt.DiscardStatus == nil {
 		cfg.WARCDiscardStatus = []int{429}
@@ -357,6 +364,13 @@ func (w *World) FinishedCount() int {
 	return len(w.Finished)
 }
 
+// FetchCount: requests that have reached the transport so far.
+func (w *World) FetchCount() int {
+	w.mu.Lock()
+	defer w.mu.Unlock()
+	return len(w.Log)
+}
+
 // IsIdlePoint tells the scheduler where a parked thread is quiescent.
 func IsIdlePoint(p string) bool {
 	if !strings.Contains(p, "select") {
@@ -423,6 +437,16 @@ func (t *transport) RoundTrip(req *http.Request) (*http.Response, error) {
 		w.mu.Lock()
 		f.End = x.StepIndex()
 		w.mu.Unlock()
+		switch r.ErrKind {
+		case "eof":
+			return nil, fmt.Errorf("fake transport: %w", io.EOF)
+		case "reset":
+			return nil, &net.OpError{Op: "read", Net: "tcp", Err: os.NewSyscallError("read", syscall.ECONNRESET)}
+		case "epipe":
+			return nil, &net.OpError{Op: "write", Net: "tcp", Err: os.NewSyscallError("write", syscall.EPIPE)}
+		case "timeout":
+			return nil, &net.OpError{Op: "dial", Net: "tcp", Err: timeoutError{}}
+		}
 		return nil, fmt.Errorf("fake transport: connection refused")
 	}
 	f.Status = r.Status
